@@ -11,7 +11,7 @@
 //	   ops: file <hex> | rs <reads> | vs <chunks> | fo <bit> <n> | fx <bit> <reads> | fv <bit> <chunks>
 //	        | to <len> <n> | tv <len> <chunks> | sh | sk
 //	CZ <comp>                    compressor chain at the snapshotter level, monitor only
-//	   ops: w <hex>
+//	   ops: w <hex> | s | g <seed> <len> <kind>
 //	BG <seed> <len> <segsizes>   real 2 MB block size, multi-megabyte payload, monitor only
 package main
 
@@ -799,56 +799,213 @@ type nopSavable struct{}
 // runCZ drives the chain snapshotter.Save / Load use: Compressor -> CountedWriter ->
 // SnapshotWriter, then SnapshotReader -> Decompressor chosen from the header; then every
 // single-bit flip of the header's used region and sampled body bits.
-func runCZ(id string, comp int, ops []string, seed uint64, st *vh.Stats) string {
-	var segs [][]byte
-	var payload []byte
-	for _, op := range ops {
-		f := strings.Fields(op)
-		if len(f) == 2 && f[0] == "w" {
-			segs = append(segs, vh.UnHex(f[1]))
-			payload = append(payload, vh.UnHex(f[1])...)
+// genSeg: the bytes of a generated write segment "g <seed> <len> <kind>"
+// (kind 0 random, 1 compressible with a period, 2 all one byte)
+func genSeg(seed uint64, n int, kind int) []byte {
+	r := vh.NewRand(seed)
+	b := make([]byte, n)
+	switch kind {
+	case 0:
+		for i := range b {
+			if i%8 == 0 {
+				v := r.U64()
+				for k := 0; k < 8 && i+k < n; k++ {
+					b[i+k] = byte(v >> (8 * uint(k)))
+				}
+			}
+		}
+	case 1:
+		per := 3 + r.Intn(200)
+		pat := r.Bytes(per)
+		for i := range b {
+			b[i] = pat[i%per] + byte(i/(per*16))
+		}
+	default:
+		v := byte(r.U64())
+		for i := range b {
+			b[i] = v
 		}
 	}
+	return b
+}
+
+func firstDiffOf(a, b []byte) int {
+	n := len(a)
+	if len(b) < n {
+		n = len(b)
+	}
+	for i := 0; i < n; i++ {
+		if a[i] != b[i] {
+			return i
+		}
+	}
+	return n
+}
+
+func shortHex(b []byte, at int) string {
+	lo, hi := at-8, at+16
+	if lo < 0 {
+		lo = 0
+	}
+	if hi > len(b) {
+		hi = len(b)
+	}
+	if lo > hi {
+		lo = hi
+	}
+	return vh.Hex(b[lo:hi])
+}
+
+// loadViaReads is loadVia with the given Read sizes (cycled) instead of io.ReadAll
+func loadViaReads(img []byte, sizes []int) (data []byte, failed bool) {
+	lfs := newFS()
+	putFile(lfs, fp, img)
+	p := vh.Catch(func() {
+		r, h, err := c14.NewSnapshotReader(fp, lfs)
+		if err != nil {
+			failed = true
+			return
+		}
+		cr := c14.NewDecompressor(h.CompressionType, r)
+		for i := 0; ; i++ {
+			k := sizes[i%len(sizes)]
+			buf := make([]byte, k)
+			m, err := cr.Read(buf)
+			data = append(data, buf[:m]...)
+			if err == io.EOF {
+				break
+			}
+			if err != nil || (m == 0 && k > 0 && i > len(data)+64) {
+				failed = true
+				break
+			}
+		}
+		if err := cr.Close(); err != nil {
+			failed = true
+		}
+	})
+	if p != "" {
+		failed = true
+	}
+	return
+}
+
+// runCZ drives the chain snapshotter.Save / Load use: Compressor -> CountedWriter ->
+// SnapshotWriter with the case's pattern of Write calls (sizes of the individual writes
+// are the point: small, huge, around the 64 KB snappy frame, across the 2 MB block), then
+// SnapshotReader -> Decompressor chosen from the header. The bytes read back must be the
+// concatenation of the writes, byte for byte, and the caller's buffers untouched. Then
+// shrink, and single-bit flips of the header's used region and sampled body bits.
+//   ops: w <hex> | s (the 16 byte empty session table, what Save writes first)
+//        | g <seed> <len> <kind> (generated segment)
+func runCZ(id string, comp int, ops []string, seed uint64, st *vh.Stats) string {
+	var lens []int
+	var all []byte
+	for _, op := range ops {
+		f := strings.Fields(op)
+		var d []byte
+		switch {
+		case len(f) == 2 && f[0] == "w":
+			d = vh.UnHex(f[1])
+		case len(f) == 1 && f[0] == "s":
+			d = c14.GetEmptyLRUSession()
+		case len(f) == 4 && f[0] == "g":
+			sd, _ := strconv.ParseUint(f[1], 10, 64)
+			n, _ := strconv.Atoi(f[2])
+			k, _ := strconv.Atoi(f[3])
+			d = genSeg(sd, n, k)
+		default:
+			continue
+		}
+		lens = append(lens, len(d))
+		all = append(all, d...)
+		st.Count("cz-write-" + sizeClass(len(d)))
+	}
+	// one caller buffer, every Write gets its sub-slice; immutable reference copy
+	buf := append(make([]byte, 0, len(all)+64), all...)
+	buf = append(buf, 0xA5, 0x5A, 0xA5, 0x5A)
+	ref := append([]byte{}, buf...)
+	payload := ref[:len(all)]
 	ct := pb.CompressionType(comp)
 	fs := newFS()
 	w, err := c14.NewSnapshotWriter(fp, ct, fs)
 	must(err)
 	cw := c14.NewCountedWriter(w)
 	sw := c14.NewCompressor(ct, cw)
-	for _, s := range segs {
-		_, err := sw.Write(s)
+	off := 0
+	for _, n := range lens {
+		k, err := sw.Write(buf[off : off+n])
 		must(err)
+		if k != n {
+			st.Violation(id, fmt.Sprintf("roundtrip: compression %d: Write of %d bytes reported %d", comp, n, k))
+		}
+		if !bytes.Equal(buf, ref) {
+			st.Violation(id, fmt.Sprintf("writer-clobbers-caller: compression %d: Write(buf[%d:%d]) modified the caller's buffer at offset %d", comp, off, off+n, firstDiffOf(buf, ref)))
+			copy(buf, ref)
+		}
+		off += n
 	}
 	must(sw.Close())
 	f := getFile(fs, fp)
 	if w.GetPayloadSize(cw.BytesWritten())+1024 != uint64(len(f)) {
 		st.Violation(id, fmt.Sprintf("size: recorded size %d+1024 but the file has %d bytes", w.GetPayloadSize(cw.BytesWritten()), len(f)))
 	}
-	load := loadVia
-	d, failed := load(f)
-	if failed || !bytes.Equal(d, payload) {
-		st.Violation(id, fmt.Sprintf("roundtrip: compression %d: loaded %s (failed=%v), saved %s", comp, vh.Hex(d), failed, vh.Hex(payload)))
+	if comp == 0 && cw.BytesWritten() != uint64(len(payload)) {
+		st.Violation(id, fmt.Sprintf("size: %d bytes written, counted %d", len(payload), cw.BytesWritten()))
+	}
+	if sum, err := c14.GetV2PayloadChecksum(fp, fs); cw.BytesWritten() > 0 && (err != nil || !bytes.Equal(sum, w.GetPayloadChecksum())) {
+		st.Violation(id, fmt.Sprintf("checksum: recorded %s, file gives %s (%v)", vh.Hex(w.GetPayloadChecksum()), vh.Hex(sum), err))
+	}
+	report := func(how string, d []byte, failed bool) {
+		if failed || !bytes.Equal(d, payload) {
+			at := firstDiffOf(d, payload)
+			st.Violation(id, fmt.Sprintf("roundtrip: compression %d, writes of %v bytes, %s: read back %d bytes (failed=%v), written %d bytes, first difference at offset %d: got ..%s.. written ..%s..",
+				comp, lens, how, len(d), failed, len(payload), at, shortHex(d, at), shortHex(payload, at)))
+		}
+	}
+	d, failed := loadVia(f)
+	report("io.ReadAll", d, failed)
+	r := vh.NewRand(seed + uint64(len(all)))
+	pat := []int{1 + r.Intn(40), 16, 1 + r.Intn(70000), 0, 65536, 1 + r.Intn(5)}
+	if len(all) > 1<<20 {
+		pat = []int{16, 1 + r.Intn(300000), 65537, 1 << 20}
+	}
+	d, failed = loadViaReads(f, pat)
+	report(fmt.Sprintf("reads of %v", pat), d, failed)
+	if v := verdict(f, []int{1024 + r.Intn(100), 1 + r.Intn(len(f)), 1 + r.Intn(len(f))}); v != "A" {
+		st.Violation(id, fmt.Sprintf("validator: writer output refused (%s), compression %d, %d bytes", v, comp, len(f)))
 	}
 	shrinkLoads(id, fmt.Sprintf("snapshot saved with compression %d", comp), f, st)
+	// bit flips: all used header bits for small files, a sample otherwise
 	pad := headerPadStart(f)
-	r := vh.NewRand(seed)
 	var bits []int
-	for b := 0; b < 8*pad; b++ {
-		bits = append(bits, b)
-	}
-	for i := 0; i < 64; i++ {
-		bits = append(bits, 8*1024+r.Intn(8*(len(f)-1024)))
+	if len(f) < 8192 {
+		for b := 0; b < 8*pad; b++ {
+			bits = append(bits, b)
+		}
+		for i := 0; i < 64; i++ {
+			bits = append(bits, 8*1024+r.Intn(8*(len(f)-1024)))
+		}
+	} else {
+		nb := 12
+		if len(f) > 1<<20 {
+			nb = 4
+		}
+		for i := 0; i < nb; i++ {
+			bits = append(bits, 64+r.Intn(8*pad-64), 8*1024+r.Intn(8*(len(f)-1024)))
+		}
 	}
 	detected := 0
 	for _, b := range bits {
 		g := flip(f, b)
-		d, failed := load(g)
+		d, failed := loadVia(g)
 		if failed {
 			detected++
 			continue
 		}
 		if !bytes.Equal(d, payload) {
-			st.Violation(id, fmt.Sprintf("corruption: compression %d: bit %d flipped, load succeeded with %s instead of %s", comp, b, vh.Hex(d), vh.Hex(payload)))
+			at := firstDiffOf(d, payload)
+			st.Violation(id, fmt.Sprintf("corruption: compression %d: bit %d flipped, load succeeded with different bytes (first difference at offset %d: ..%s.. instead of ..%s..)", comp, b, at, shortHex(d, at), shortHex(payload, at)))
 			break
 		}
 	}
@@ -856,6 +1013,23 @@ func runCZ(id string, comp int, ops []string, seed uint64, st *vh.Stats) string 
 	st.Distribution["cz-flips"] += len(bits)
 	st.Distribution["cz-flips-detected"] += detected
 	return fmt.Sprintf("%s CZ", id)
+}
+
+func sizeClass(n int) string {
+	switch {
+	case n == 0:
+		return "0"
+	case n < 256:
+		return "lt256"
+	case n < 65535:
+		return "lt64K"
+	case n <= 65537:
+		return "64K+-1"
+	case n < 2<<20:
+		return "lt2M"
+	default:
+		return "ge2M"
+	}
 }
 
 // ---------------------------------------------------------------- BG (monitor only)
